@@ -108,15 +108,15 @@ def run(out):
             ms = []
             for _ in range(k):
                 if rng.random() < 0.6:
-                    ln = rng.choice([0, 0, 1, 2, 5, 127, 128, rng.randrange(3000) if i % 10 == 0 else rng.randrange(40)])
+                    ln = rng.choice([0, 0, 1, 2, 5, 127, 128, rng.randrange(6000) if rng.random() < 0.25 else rng.randrange(40)])
                     ms.append([7, ln] + [rng.randrange(128) for _ in range(ln)])
                 else:
                     m = canon.random_message(rng, sysex_max=3)
                     ms.append(m)
-            wcases.append([i % 2, len(ms)] + [x for m in ms for x in m])
+            wcases.append([rng.randrange(2), len(ms)] + [x for m in ms for x in m])
         wcases += [[0, 0], [1, 0], [0, 1, 7, 0], [1, 1, 7, 0], [1, 2, 1, 0, 1, 2, 12]]
         for i in range(n):
-            ms = [[7, ln] + [rng.randrange(128) for _ in range(ln)] for ln in [rng.choice([0, 1, 3, 20]) for _ in range(rng.randrange(0, 4))]]
+            ms = [[7, ln] + [rng.randrange(128) for _ in range(ln)] for ln in [rng.choice([0, 1, 3, 20, 20, rng.randrange(3000)]) for _ in range(rng.randrange(0, 4))]]
             bs = [b for m in ms for b in canon.std_layout(m)]
             if rng.random() < 0.3:
                 bs = bs[:max(0, len(bs) - rng.randrange(0, 3))] + canon.std_layout(canon.random_message(rng, sysex_max=2))
@@ -135,7 +135,7 @@ def run(out):
             core.merge_into(out, rec, tag)
     finally:
         shutil.rmtree(SCRATCH, ignore_errors=True)
-    out.rule = ('write_syx_file to a real file (binary and plain text) for %d message lists (sysex payloads 0..3000 bytes, interleaved non-sysex '
+    out.rule = ('write_syx_file to a real file (binary and plain text) for %d message lists (sysex payloads 0..6000 bytes, long ones in both formats, interleaved non-sysex '
                 'messages, empty list): file bytes compared with the model, and read_syx_file(file) must return exactly the sysex messages; '
                 'read_syx_file on %d files: binary, text with random whitespace layouts (space, tab, CR, LF, VT, FF, FS..US, NEL, NBSP, none) and '
                 'either letter case, truncated / mixed content, malformed hex. Non-trivial: non-zero content; distinct by content.' % (len(wcases), len(rcases)))
